@@ -10,7 +10,13 @@ Workloads
   b2b      bumble <-> bumble, independent MTU/MPS/credits per side, LE and enhanced
   rawsrv   raw peer *requests* a channel from a bumble server with peer-chosen CIDs
   rawcli   bumble requests a channel from a raw peer that answers with odd CIDs,
-           zero initial credits, single-credit grants or bursts
+           zero initial credits, single-credit grants or bursts, or a Flow Control Credit
+           frame in the same burst as its connection response
+  len16    (profile of b2b / rawsrv / rawcli) every 16-bit length field on both sides of the
+           signed/unsigned boundary: MTU 32767/32768/65535, MPS up to 65533, initial credits and
+           grants of 32767/32768/65535, writes and SDUs of 32767..65535 and 65536+ bytes, both ways
+  linkloss a saturating transfer cut by the loss of the link (either side, seeded moment), then
+           reconnection, a new channel and a transfer that must complete; 1-3 times per case
 """
 from __future__ import annotations
 
@@ -25,7 +31,7 @@ from vlib.result import R
 ID = 'C07'
 LEVEL = 'exploration'
 RULE = ('seeded cases over (mode, mtu/mps/credits per side, write-size pattern, ACL geometry, delay '
-        'schedule); a case is non-trivial when at least one direction needed a credit replenishment '
+        'schedule, link-loss moment and side); a case is non-trivial when at least one direction needed a credit replenishment '
         '(ledger touched zero or a grant was observed) or an SDU was segmented; distinct = distinct '
         'parameter tuple + write pattern')
 ASSUMPTIONS = [
@@ -35,9 +41,13 @@ ASSUMPTIONS = [
 ]
 MIN_EVENTS = {
     'quick': {'ledger_frames': 3000, 'ledger_credit_grants': 300, 'stream_checks': 150, 'raw_cases': 40, 'raw_multi_cases': 20,
-              'max_credit_cases': 1, 'raw_multi_batch_cases': 15, 'last_words_checks': 100},
+              'max_credit_cases': 1, 'raw_multi_batch_cases': 15, 'last_words_checks': 100,
+              'ledger_sdus_ge_32768': 30, 'raw_sdus_ge_32768_to_bumble': 10, 'linkloss_retransfers': 80,
+              'linkloss_cuts_mid_transfer': 60, 'early_credit_cases': 12},
     'thorough': {'ledger_frames': 100000, 'ledger_credit_grants': 10000, 'stream_checks': 3000, 'raw_cases': 800,
-                 'raw_multi_cases': 300, 'max_credit_cases': 4, 'raw_multi_batch_cases': 100, 'last_words_checks': 2000},
+                 'raw_multi_cases': 300, 'max_credit_cases': 4, 'raw_multi_batch_cases': 100, 'last_words_checks': 2000,
+                 'ledger_sdus_ge_32768': 150, 'raw_sdus_ge_32768_to_bumble': 60, 'linkloss_retransfers': 600,
+                 'linkloss_cuts_mid_transfer': 500, 'early_credit_cases': 80},
 }
 CASE_TIMEOUT = 300
 
@@ -56,6 +66,12 @@ def plan(tier, seed):
         cases.append({'kind': 'rawsrv' if i % 2 else 'rawcli', 'seed': seed * 1000003 + i, 'tier': tier})
     for i in range(120 if tier == 'quick' else 600):
         cases.append({'kind': 'rawmulti', 'seed': seed * 1000003 + i, 'tier': tier})
+    for i in range(32 if tier == 'quick' else 160):
+        cases.append({'kind': 'b2b', 'profile': 'len16', 'k': i, 'seed': seed * 1000003 + 70000 + i, 'tier': tier})
+    for i in range(32 if tier == 'quick' else 200):
+        cases.append({'kind': 'rawsrv' if i % 2 else 'rawcli', 'profile': 'len16', 'seed': seed * 1000003 + 71000 + i, 'tier': tier})
+    for i in range(96 if tier == 'quick' else 800):
+        cases.append({'kind': 'linkloss', 'seed': seed * 1000003 + 72000 + i, 'tier': tier})
     for i in range(1 if tier == 'quick' else 4):
         cases.append({'kind': 'maxcredits', 'seed': seed * 1000003 + i, 'tier': tier, '_timeout': 600})
     # the long case first, so that it overlaps with everything else
@@ -90,7 +106,46 @@ def write_pattern(rng, mtu, mps, total_cap):
     return pat, out
 
 
+BIG_MTUS = [32767, 32768, 65535]
+BIG_MPSS = [251, 2048, 32767, 32768, 65533]
+BIG_CREDITS = [2, 64, 32767, 32768, 65535]
+LEN16_SIZES = [32767, 32768, 32769, 65534, 65535]
+
+
+def big_pattern(rng, total_cap):
+    sizes = [rng.choice(LEN16_SIZES), rng.choice([7, 1, 300]), rng.choice(LEN16_SIZES + [rng.randint(32769, 65534)])]
+    if rng.random() < 0.5:
+        sizes.append(rng.choice([65536, 70000]))       # one write that needs two SDUs even with the largest MTU
+    rng.shuffle(sizes)
+    out, tot = [], 0
+    for s in sizes:
+        if tot + s > total_cap:
+            break
+        out.append(s)
+        tot += s
+    return 'len16', out
+
+
+_DATA_CACHE = {}
+
+
 def make_data(tag: int, start: int, n: int) -> bytes:
+    if n > 4096:
+        # long runs: position-dependent with a period that is no power of two, built by slicing
+        key = tag & 0xFF
+        base = _DATA_CACHE.get(key)
+        if base is None:
+            base = _DATA_CACHE[key] = bytes(((key * 131 + i * 7 + (i // 251) * 13) & 0xFF) for i in range(251 * 256))
+        out = bytearray()
+        pos = start % len(base)
+        while len(out) < n:
+            out += base[pos:pos + n - len(out)]
+            pos = 0
+        return bytes(out)
+    return _make_data_small(tag, start, n)
+
+
+def _make_data_small(tag: int, start: int, n: int) -> bytes:
     # position-dependent bytes so that loss, duplication or reordering anywhere shows
     return bytes(((tag * 131 + (start + i) * 7 + ((start + i) >> 8) * 13) & 0xFF) for i in range(n))
 
@@ -106,6 +161,17 @@ async def b2b(case, r: R):
     spec_c = dict(mtu=rng.choice(MTUS), mps=rng.choice(MPSS), max_credits=rng.choice(CREDITS))
     spec_s = dict(mtu=rng.choice(MTUS), mps=rng.choice(MPSS), max_credits=rng.choice(CREDITS))
     lens = [rng.choice([27, 27, 64, 251]) for _ in range(2)]
+    big = case.get('profile') == 'len16'
+    if big:
+        # every 16-bit length field of the channel on both sides of the signed/unsigned boundary:
+        # MTU, MPS, credits in the request AND in the response, SDU length, K-frame length
+        cap = 150000
+        mode = rng.choice(['le', 'le', 'enh1'])
+        spec_c = dict(mtu=rng.choice(BIG_MTUS), mps=rng.choice(BIG_MPSS), max_credits=rng.choice(BIG_CREDITS))
+        spec_s = dict(mtu=rng.choice(BIG_MTUS), mps=rng.choice(BIG_MPSS), max_credits=rng.choice(BIG_CREDITS))
+        if case.get('k', 0) % 2 == 0:
+            spec_s['mtu'] = rng.choice([32768, 65535])     # at least the server accepts SDUs >= 32768
+        lens = [rng.choice([64, 251, 251]) for _ in range(2)]
     nums = [rng.choice([1, 2, 4, 64]) for _ in range(2)]
     delay = rng.choice([0, 0, 1, 3, 7])
     rg = vrig.Rig(2, seed=case['seed'], max_delay=delay, le_acl_len=lens, le_acl_num=nums)
@@ -128,6 +194,9 @@ async def b2b(case, r: R):
         return
     await rg.quiesce()
     r.ev('oracle_evals')
+    if big:
+        mode = mode + '/len16'
+        r.ev('len16_cases')
     if len(server_channels) != len(chans):
         r.bad(f'coc/connect-mismatch/{mode}', f'{len(chans)} client channels, {len(server_channels)} server channels')
         return
@@ -145,8 +214,12 @@ async def b2b(case, r: R):
         got_s, got_c = bytearray(), bytearray()
         sv.sink = got_s.extend
         ch.sink = got_c.extend
-        pat_a, sizes_a = write_pattern(rng, spec_s['mtu'], spec_s['mps'], cap)
-        pat_b, sizes_b = write_pattern(rng, spec_c['mtu'], spec_c['mps'], cap) if rng.random() < 0.7 else ('none', [])
+        if big:
+            pat_a, sizes_a = big_pattern(rng, cap)
+            pat_b, sizes_b = big_pattern(rng, cap) if rng.random() < 0.7 else ('none', [])
+        else:
+            pat_a, sizes_a = write_pattern(rng, spec_s['mtu'], spec_s['mps'], cap)
+            pat_b, sizes_b = write_pattern(rng, spec_c['mtu'], spec_c['mps'], cap) if rng.random() < 0.7 else ('none', [])
         plans.append((ch, sv, got_s, got_c, sizes_a, sizes_b, pat_a, pat_b))
     # issue writes, interleaved across channels and directions
     steps = []
@@ -240,7 +313,7 @@ async def b2b(case, r: R):
                   f'{d}: write({size}); await drain(); await disconnect(): the peer sink has {len(got)} of '
                   f'{len(sent[(pi, d)])} bytes; client={spec_c} server={spec_s}')
     for dev in (0, 1):
-        txs = rl.coc_ledger(rg.boundary_log, dev, r)
+        txs = rl.coc_ledger(rg.boundary_log, dev, r, tag='/len16' if big else '')
         for t in txs:
             if t.zero_credit_moments or t.sdus and t.frames > t.sdus:
                 nontrivial = True
@@ -334,11 +407,25 @@ async def raw_case(case, r: R):
     my_mps = rng.choice([23, 24, 64, 251, 2048])
     bspec = dict(mtu=rng.choice([23, 64, 512, 2046]), mps=rng.choice([23, 24, 64, 251, 2048]),
                  max_credits=rng.choice([1, 2, 3, 8, 64]))
-    ep = RawCoc(raw, rc.handle, my_cid, my_mtu, my_mps)
     initial_grant = rng.choice([0, 0, 1, 2, 5])
     grant_style = rng.choice(['one', 'burst', 'exact'])
+    # decisions added later draw from their own generator, so that the older cases stay what they were
+    rng2 = random.Random(case['seed'] ^ 0x5EED07)
+    big = case.get('profile') == 'len16'
+    if big:
+        my_mtu = rng2.choice(BIG_MTUS)
+        my_mps = rng2.choice([251, 32767, 32768, 65533])
+        bspec = dict(mtu=rng2.choice(BIG_MTUS), mps=rng2.choice([2048, 32767, 32768, 65533]),
+                     max_credits=rng2.choice([8, 32767, 32768, 65535]))
+        initial_grant = rng2.choice([0, 1, 32767, 32768, 65535])
+        grant_style = rng2.choice(['one', 'burst', 'huge', 'huge'])
+    # a Flow Control Credit frame that follows the connection RESPONSE at once (same burst)
+    early = rng2.choice([0, 1, 3, 40]) if kind == 'rawcli' and not big and (initial_grant == 0 or rng2.random() < 0.3) else 0
+    ep = RawCoc(raw, rc.handle, my_cid, my_mtu, my_mps)
     bumble_ch = None
-    tag = '/enhanced' if enhanced else '/le'
+    tag = ('/enhanced' if enhanced else '/le') + ('/len16' if big else '')
+    if early:
+        tag += '/credits-right-after-response'
 
     if kind == 'rawsrv':
         # bumble is the server, the raw peer requests
@@ -390,6 +477,9 @@ async def raw_case(case, r: R):
                          struct.pack('<HHHHH', ep.my_mtu, ep.my_mps, initial_grant, 0, my_cid)))
             ep.peer_cid, ep.peer_mtu, ep.peer_mps, ep.tx_credits = scid, mtu, mps, cr
             ep.granted = initial_grant
+            if early:
+                ep.grant(early)
+                r.ev('early_credit_cases')
             return True
 
         acc = asyncio.ensure_future(acceptor())
@@ -425,10 +515,13 @@ async def raw_case(case, r: R):
 
     # 1) bumble -> raw: bumble writes; raw grants credits in its own style
     total = rng.choice([1, 50, 300, 2000])
+    if big:
+        total = rng2.choice(LEN16_SIZES + [70000])
+        r.ev('len16_cases')
     data_b2r = make_data(3, 0, total)
     off = 0
     while off < total:
-        n = rng.choice([1, 7, 100, total])
+        n = rng.choice([1, 7, 100, total]) if not big else total
         bumble_ch.write(data_b2r[off:off + n])
         off += n
     turns = 0
@@ -438,7 +531,8 @@ async def raw_case(case, r: R):
         if len(ep.rx) >= total:
             break
         if ep.granted <= 0:
-            g = 1 if grant_style == 'one' else rng.randint(2, 9) if grant_style == 'burst' else 3
+            g = (1 if grant_style == 'one' else rng.randint(2, 9) if grant_style == 'burst' else
+                 rng2.choice([32768, 65535]) if grant_style == 'huge' else 3)
             ep.grant(g)
             r.ev('raw_grants')
         else:
@@ -460,11 +554,17 @@ async def raw_case(case, r: R):
 
     # 2) raw -> bumble: obey bumble's credits exactly; bumble must replenish
     total2 = rng.choice([1, 40, 500, 3000])
+    if big:
+        total2 = rng2.choice(LEN16_SIZES + [70000])
     data_r2b = make_data(5, 0, total2)
     frames = []
     off = 0
     while off < total2:
         n = min(ep.peer_mtu, rng.choice([1, 20, ep.peer_mtu, ep.peer_mtu]))
+        if big:
+            n = min(ep.peer_mtu, rng2.choice(LEN16_SIZES))
+            if n >= 32768:
+                r.ev('raw_sdus_ge_32768_to_bumble')
         frames += ep.send_sdu(data_r2b[off:off + n])
         off += n
     fi = 0
@@ -490,15 +590,15 @@ async def raw_case(case, r: R):
               f'(bumble spec {bspec}, peer_credits={bumble_ch.peer_credits})')
     elif bytes(got_b) != data_r2b:
         r.bad('coc/stream/corrupt/raw-to-bumble' + tag, f'bumble sink has {len(got_b)} bytes, sent {total2}')
-    rl.coc_ledger(rg.boundary_log, 0, r, tag='/raw')
+    rl.coc_ledger(rg.boundary_log, 0, r, tag='/raw' + ('/len16' if big else ''))
     for where, e in rg.exceptions:
         r.bad('coc/exception-in-stack', f'{where}: {e}')
-    r.sig(kind, enhanced, my_cid, my_mtu, my_mps, tuple(sorted(bspec.items())), initial_grant, grant_style, total, total2)
+    r.sig(kind, enhanced, my_cid, my_mtu, my_mps, tuple(sorted(bspec.items())), initial_grant, grant_style, total, total2, early)
     r.sched.add(rg.schedule_signature)
     r.evals()
     r.sample = {'kind': kind, 'enhanced': enhanced, 'raw_cid': my_cid, 'raw_mtu': ep.my_mtu, 'raw_mps': ep.my_mps,
                 'bumble_spec': bspec, 'initial_grant': initial_grant, 'grant_style': grant_style,
-                'bytes_b2r': total, 'bytes_r2b': total2, 'frames_from_bumble': ep.frames_in}
+                'credits_right_after_response': early, 'bytes_b2r': total, 'bytes_r2b': total2, 'frames_from_bumble': ep.frames_in}
 
 
 async def raw_multi(case, r: R):
@@ -677,6 +777,132 @@ async def raw_multi(case, r: R):
     r.sample = {'kind': 'rawmulti', 'raw_cids': perm, 'closed': [ep.my_cid for ep in to_close], 'bumble_spec': bspec}
 
 
+async def link_loss(case, r: R):
+    """A transfer that saturates the controller buffers is interrupted by the loss of the link (either side
+    terminates it, at a seeded moment, packets in flight); the devices reconnect, a NEW channel is opened and a
+    new transfer must complete, exactly - whatever the lost link left behind. Repeated 1-3 times."""
+    from bumble import l2cap
+    from vlib import rig as vrig
+
+    rng = random.Random(case['seed'])
+    vrig.seed_entropy(case['seed'])
+    nums = [rng.choice([1, 2, 4, 8, 64]) for _ in range(2)]
+    lens = [rng.choice([27, 64, 251]) for _ in range(2)]
+    delay = rng.choice([0, 1, 3, 7])
+    mode = rng.choice(['le', 'le', 'enh1'])
+    spec_c = dict(mtu=rng.choice([64, 512, 2046]), mps=rng.choice([23, 64, 251, 1024]), max_credits=rng.choice([2, 8, 64, 256]))
+    spec_s = dict(mtu=rng.choice([64, 512, 2046]), mps=rng.choice([23, 64, 251, 1024]), max_credits=rng.choice([2, 8, 64, 256]))
+    rg = vrig.Rig(2, seed=case['seed'], max_delay=delay, le_acl_len=lens, le_acl_num=nums)
+    await rg.power_on()
+    psm = 0x87
+    server_channels = []
+    rg.devices[1].create_l2cap_server(spec=l2cap.LeCreditBasedChannelSpec(psm=psm, **spec_s), handler=server_channels.append)
+    cspec = l2cap.LeCreditBasedChannelSpec(psm=psm, **spec_c)
+    rounds = rng.choice([1, 2, 2, 3])
+    hist = []
+    seg_start = 0
+    for rnd in range(rounds + 1):
+        after = '/after-link-loss' if rnd else ''
+        try:
+            cc, pc = await rg.connect_le(0, 1)
+        except vloop.Hang:
+            r.bad(f'coc/progress/stalled{after}/reconnect', f'LE connection pending at T_v; history={hist}')
+            return
+        n0 = len(server_channels)
+        try:
+            if mode == 'le':
+                ch = await vloop.vwait(cc.create_l2cap_channel(spec=cspec))
+            else:
+                ch = (await vloop.vwait(
+                    rg.devices[0].l2cap_channel_manager.create_enhanced_credit_based_channels(cc, cspec, 1)))[0]
+        except vloop.Hang:
+            r.bad(f'coc/progress/stalled{after}/open/{mode}',
+                  f'channel creation on a fresh connection pending at T_v; history={hist} le_acl_num={nums} delay={delay}')
+            return
+        await rg.quiesce()
+        r.ev('oracle_evals')
+        if len(server_channels) != n0 + 1:
+            r.bad(f'coc/connect-mismatch/{mode}{after}', f'{len(server_channels) - n0} server ends for one client channel')
+            return
+        sv = server_channels[-1]
+        got_s, got_c = bytearray(), bytearray()
+        sv.sink = got_s.extend
+        ch.sink = got_c.extend
+        # 1) a transfer that must complete (both directions)
+        sent_c = make_data(rnd * 4, 0, rng.choice([1, 300, 2500, 6000]))
+        sent_s = make_data(rnd * 4 + 1, 0, rng.choice([0, 300, 2500]))
+        ch.write(sent_c)
+        if sent_s:
+            sv.write(sent_s)
+
+        async def all_received():
+            while len(got_s) < len(sent_c) or len(got_c) < len(sent_s):
+                await asyncio.sleep(0.01)
+        try:
+            await vloop.vwait(all_received())
+        except vloop.Hang:
+            r.bad(f'coc/progress/stalled{after}/transfer/{mode}',
+                  f'c2s {len(got_s)}/{len(sent_c)} s2c {len(got_c)}/{len(sent_s)} bytes at T_v on a new channel; '
+                  f'history={hist} le_acl_num={nums} delay={delay} client={spec_c} server={spec_s}')
+            return
+        await rg.quiesce()
+        r.ev('stream_checks', 2)
+        r.ev('oracle_evals', 2)
+        if rnd:
+            r.ev('linkloss_retransfers')
+        if bytes(got_s) != sent_c or bytes(got_c) != sent_s:
+            r.bad(f'coc/stream/corrupt/{mode}{after}', f'c2s {len(got_s)}/{len(sent_c)} s2c {len(got_c)}/{len(sent_s)}; history={hist}')
+            return
+        if rnd == rounds:
+            break
+        # 2) a saturating transfer, interrupted by the loss of the link
+        dirs = rng.choice([('c2s',), ('s2c',), ('c2s', 's2c')])
+        big_c = make_data(rnd * 4 + 2, 0, rng.choice([8000, 20000, 40000])) if 'c2s' in dirs else b''
+        big_s = make_data(rnd * 4 + 3, 0, rng.choice([8000, 20000, 40000])) if 's2c' in dirs else b''
+        del got_s[:], got_c[:]
+        for off in range(0, max(len(big_c), len(big_s)), 2000):
+            if big_c[off:off + 2000]:
+                ch.write(big_c[off:off + 2000])
+            if big_s[off:off + 2000]:
+                sv.write(big_s[off:off + 2000])
+        for _ in range(rng.choice([0, 1, 3, 10, 30, 100, 300])):
+            await asyncio.sleep(0)
+        who = rng.choice(['central', 'peripheral'])
+        inflight = rg.in_flight
+        try:
+            await vloop.vwait((cc if who == 'central' else pc).disconnect())
+        except vloop.Hang:
+            r.bad('coc/progress/stalled/link-disconnect', f'Connection.disconnect() pending at T_v; history={hist}')
+            return
+        except Exception as e:      # the link went away under the call: fine
+            r.ev('linkloss_disconnect_raised')
+        await rg.quiesce()
+        hist.append((dirs, who, len(got_s), len(got_c)))
+        r.ev('linkloss_cuts')
+        if len(got_s) < len(big_c) or len(got_c) < len(big_s):
+            r.ev('linkloss_cuts_mid_transfer')
+        if inflight:
+            r.ev('linkloss_cuts_with_messages_in_flight')
+        # what arrived before the loss is a prefix of what was written
+        r.ev('oracle_evals', 2)
+        if bytes(got_s) != big_c[:len(got_s)] or bytes(got_c) != big_s[:len(got_c)]:
+            r.bad(f'coc/stream/corrupt/{mode}/interrupted-prefix', f'bytes delivered before the link loss are no prefix of the '
+                                                                    f'bytes written; history={hist}')
+        rl.coc_ledger(rg.boundary_log[seg_start:], 0, r, tag='/link-loss')
+        rl.coc_ledger(rg.boundary_log[seg_start:], 1, r, tag='/link-loss')
+        seg_start = len(rg.boundary_log)
+    rl.coc_ledger(rg.boundary_log[seg_start:], 0, r, tag='/link-loss')
+    rl.coc_ledger(rg.boundary_log[seg_start:], 1, r, tag='/link-loss')
+    for where, e in rg.exceptions:
+        r.bad('coc/exception-in-stack', f'{where}: {e}')
+    r.ev('linkloss_cases')
+    r.sig('linkloss', mode, tuple(nums), tuple(lens), delay, tuple(hist))
+    r.sched.add(rg.schedule_signature)
+    r.evals()
+    r.sample = {'kind': 'linkloss', 'mode': mode, 'client': spec_c, 'server': spec_s, 'le_acl_num': nums, 'le_acl_len': lens,
+                'delay': delay, 'history': [list(map(str, h)) for h in hist]}
+
+
 async def max_credits(case, r: R):
     """A receiver that grants the protocol maximum of 65535 credits, and a sender that uses
     more than 65535 frames: the credit counters cross every boundary up to the maximum."""
@@ -732,6 +958,8 @@ async def run_case(case, r: R):
         await raw_multi(case, r)
     elif case['kind'] == 'maxcredits':
         await max_credits(case, r)
+    elif case['kind'] == 'linkloss':
+        await link_loss(case, r)
     else:
         await raw_case(case, r)
 
@@ -739,7 +967,9 @@ async def run_case(case, r: R):
 LEVEL_TEXT = ('Credit ledger, MPS/MTU bounds and stream equality checked on every execution of ~180 (quick) / '
               '~3600 (thorough) generated transfers over real bumble devices on the virtual link, including a '
               'hand-driven raw peer that uses CIDs, zero initial credits and grant patterns bumble itself never '
-              'produces; progress is bounded in virtual time. Sampling of the parameter space, not proof.')
+              'produces (including credits sent in the same burst as the connection response), sizes on both sides of '
+              '32768 in every 16-bit length field, and transfers cut by a link loss followed by reconnection and a new '
+              'transfer; progress is bounded in virtual time. Sampling of the parameter space, not proof.')
 LEVEL_NOTE = ('Trusted: vlib/ref_l2cap.py (signalling parser + ledger, ~200 lines), vlib/rig.py taps and '
               'independent ACL reassembler, the virtual-time loop. No frame loss is modelled.')
 TECHNIQUE = 'runtime monitoring: offline credit-ledger checker over tapped HCI log + stream equality + bounded progress'
